@@ -25,7 +25,9 @@ Positions == {"definition", "property", "parameter", "operationId", "tag", "enum
 NameClasses == {"plain", "upper", "digits_first", "spaces", "dashes", "dots", "punct", "nonascii", "keyword_type", "keyword_func", "keyword_range",
                 "predeclared_string", "predeclared_error", "predeclared_nil", "predeclared_len", "predeclared_true", "pkg_context", "pkg_errors",
                 "member_Validate", "member_Context", "member_HTTPClient", "member_Error", "receiver_o", "receiver_m", "slash", "initialism", "camel", "underscore_first",
-                "dollar", "single_letter", "go_test_suffix"}
+                "dollar", "single_letter", "go_test_suffix",
+                \* names that become a Go keyword only once mangled to a variable name
+                "keyword_cap_Type", "keyword_cap_Range", "keyword_cap_Default", "keyword_cap_Func", "keyword_cap_Map"}
 
 Case(k, d, pos, cls, t, m, o) == [kind |-> k, doc |-> d, pos |-> pos, cls |-> cls, target |-> t, mode |-> m, opts |-> o]
 DocCases == {Case("doc", d, "-", "-", t, m, o) : d \in DocKinds, t \in Targets, m \in Modes, o \in OptionSets}
